@@ -855,7 +855,7 @@ impl TypedScenario for PersistSc {
     fn n_runs(&self, tier: Tier) -> u64 {
         match tier {
             Tier::Quick => 60_000,
-            Tier::Thorough => 3_000_000,
+            Tier::Thorough => 24_000_000,
         }
     }
     fn generate(&self, seed: u64, tier: Tier, i: u64) -> Persist {
@@ -970,7 +970,7 @@ impl TypedScenario for PrintSc {
     fn n_runs(&self, tier: Tier) -> u64 {
         match tier {
             Tier::Quick => 4_000,
-            Tier::Thorough => 150_000,
+            Tier::Thorough => 1_000_000,
         }
     }
     fn generate(&self, seed: u64, _tier: Tier, i: u64) -> Print {
